@@ -33,6 +33,8 @@ struct Track {
     /// (since, address, deadline) while the server sits on an address that never answers
     on_dead: Option<(Ns, SocketAddr, Ns)>,
     max_pto: Ns,
+    /// whether the path was validated when last observed
+    was_validated: bool,
 }
 
 pub struct MigOracle {
@@ -90,7 +92,8 @@ impl Oracle for MigOracle {
                 continue;
             }
             let now_remote = c.conn.remote_address();
-            let pto = c.conn.verif_probe().pto.as_nanos() as Ns;
+            let pr = c.conn.verif_probe();
+            let pto = pr.pto.as_nanos() as Ns;
             let t = self.tr.entry(c.inc).or_default();
             t.max_pto = t.max_pto.max(pto);
             match t.remote {
@@ -126,9 +129,27 @@ impl Oracle for MigOracle {
                         // PTO that quinn uses may include a sample taken while handling the very
                         // packet that caused the switch, so its own reports lag behind.)
                         let rmax = (2 * w.max_owd + 25 * MS + lateness).max(self.initial_rtt);
-                        let bound = 3 * (5 * rmax + 25 * MS).max(t.max_pto.max(pto)) + 2 * lateness + MS;
+                        // quinn takes the larger of the new path's probe timeout and that of the
+                        // path it leaves. The latter is read from the retained previous path: the
+                        // value last reported for it may lag, since the very packet that caused
+                        // the switch may have carried an acknowledgement (an RTT sample) as well.
+                        let prev_pto = pr.prev_path_pto.map_or(0, |d| d.as_nanos() as Ns);
+                        let base = (5 * rmax + 25 * MS).max(t.max_pto).max(pto).max(prev_pto);
+                        let mut bound = 3 * base + 2 * lateness + MS;
+                        if !t.was_validated {
+                            // The path left was itself unvalidated and is not retained, so its
+                            // estimate after that last sample cannot be read any more. One sample
+                            // moves a probe timeout by at most 9/8 of the sample, and no sample
+                            // exceeds the age of the world: accept the deadline quinn armed if it
+                            // is within that (loose, but sound) limit.
+                            if let Some(armed) = pr.timers[4] {
+                                let armed = w.to_ns(armed).saturating_sub(w.now);
+                                let loose = 3 * (base + 2 * w.now) + 2 * lateness + MS;
+                                bound = bound.max(armed.min(loose) + 2 * lateness + MS);
+                            }
+                        }
                         t.on_dead = Some((w.now, now_remote, w.now + bound));
-                        if c.conn.verif_probe().timers[4].is_none() {
+                        if pr.timers[4].is_none() {
                             problem = Some(("no-path-validation-timer".into(), format!("inc{} switched to the unvalidated address {} without arming a path validation timer", c.inc, now_remote)));
                             break;
                         }
@@ -144,6 +165,7 @@ impl Oracle for MigOracle {
                     break;
                 }
             }
+            t.was_validated = pr.path_validated;
         }
         self.pending.set(self.tr.values().filter(|t| t.on_dead.is_some()).count() as u32);
         if let Some((k, d)) = problem {
